@@ -1,22 +1,65 @@
 #define VP_OPS_IMPL
 #include "ops.hh"
+struct S3 : public inner_op
+{
+  struct state { stack::uptr m_cur; unsigned m_k; };
+  layout::loc m_ll;
+  unsigned m_cnt[VP_D];
+  uint64_t m_out[VP_D][VP_M];
+  S3 (layout &l, std::shared_ptr <op> upstream) : inner_op {upstream}, m_ll {l.reserve <state> ()} {}
+  std::string name () const override { return "S"; }
+  void state_con (scon &sc) const override { sc.con <state> (m_ll); sc.get <state> (m_ll).m_k = 0; inner_op::state_con (sc); }
+  void state_des (scon &sc) const override { inner_op::state_des (sc); sc.des <state> (m_ll); }
+  stack::uptr next (scon &sc) const override
+  {
+    state &st = sc.get <state> (m_ll);
+    for (unsigned guard = 0; guard < LOOPN; ++guard)
+      {
+        if (st.m_cur == nullptr)
+          {
+            st.m_cur = m_upstream->next (sc);
+            if (st.m_cur == nullptr)
+              return nullptr;
+            st.m_k = 0;
+          }
+        uint64_t t = tok_at (*st.m_cur, 0);
+        if (st.m_k < m_cnt[t])
+          {
+            auto r = std::make_unique <stack> (*st.m_cur);
+#if POP
+            r->pop ();
+            r->push (std::make_unique <value_tok> (m_out[t][st.m_k], st.m_k));
+#endif
+            st.m_k++;
+            return r;
+          }
+        st.m_cur = nullptr;
+      }
+    return nullptr;
+  }
+};
 VP_HARNESS (probe_or)
 {
   layout l;
   auto u = std::make_shared <U_src> (l);
-  auto o = std::make_shared <op_or> (l, u);
-  std::shared_ptr <S_map> s[2];
-  for (unsigned b = 0; b < 2; ++b)
-    {
-      auto origin = std::make_shared <op_origin> (l);
-      s[b] = std::make_shared <S_map> (l, origin);
-#if 1
-      s[b]->randomize ();
-#endif
-      o->add_branch (origin, s[b]);
-    }
+  u->m_n = 2; u->m_two = true;
+  u->m_tok[0] = nd_tok (); u->m_tok[1] = nd_tok (); u->m_below[0] = 0; u->m_below[1] = 1;
+  auto s = std::make_shared <S3> (l, u);
+  for (unsigned t = 0; t < VP_D; ++t) { unsigned c = vp_nondet_u8 (); vp_assume (c <= 2); s->m_cnt[t] = c; s->m_out[t][0] = nd_tok (); s->m_out[t][1] = nd_tok (); }
+  std::shared_ptr <op> x = s;
   scon sc {l};
-  std::shared_ptr <op> x = o;
   x->state_con (sc);
+  unsigned end = vp_nondet_u8 ();
+  vp_assume (end <= 2);
+  u->feed (sc, end);
+  unsigned n = 0;
+  for (unsigned p = 0; p < NP; ++p)
+    {
+      auto r = x->next (sc);
+      if (r == nullptr)
+        break;
+      vp_assert (r->size () == 2, "size");
+      ++n;
+    }
   x->state_des (sc);
 }
